@@ -158,7 +158,7 @@ fn template_line(rng: &mut Rng, vocab: &[String]) -> String {
         }
     };
     let cs = |rng: &mut Rng| vocab[rng.below(vocab.len())].clone();
-    match rng.below(30) {
+    match rng.below(40) {
         0 => format!("\\count{}={} ", num(rng), num(rng)),
         1 => format!("\\catcode{}={} ", num(rng), num(rng)),
         2 => format!("\\dimen{}={} ", num(rng), dim(rng)),
@@ -212,6 +212,13 @@ fn template_line(rng: &mut Rng, vocab: &[String]) -> String {
             }
             s
         }
+        30..=34 => boundary_walk(rng),
+        35 | 36 => error_storm(rng),
+        37 => {
+            // end-of-input errors right after input came from the terminal or a read stream
+            let tail = ["\\def\\xa{", "\\let", "\\count", "\\the", "\\xa", "\\ifnum", "\\global", "\\toks1={", "\\expandafter", "\\read 3 to"][rng.below(10)];
+            format!("\\read {} to\\xa {tail}", [0, 16, -1, 7][rng.below(4)])
+        }
         _ => {
             // errors while something is pending: inside a macro argument, a \\read group, a
             // conditional being skipped, an alignment of prefixes
@@ -228,6 +235,70 @@ fn template_line(rng: &mut Rng, vocab: &[String]) -> String {
             .to_string()
         }
     }
+}
+
+/// Walk a register of any kind (each glue component included) to +-2^31 or +-(2^31-1) with
+/// \\advance (which wraps silently, as in TeX), then apply every arithmetic primitive with
+/// boundary operands and use the register wherever a number, dimension or glue is scanned.
+fn boundary_walk(rng: &mut Rng) -> String {
+    let mut s = String::new();
+    // which extreme: (half, final nudge) so that half+half+nudge hits the target
+    let (half, nudge) = [
+        ("-1073741823", "-2"),
+        ("-1073741823", "-1"),
+        ("1073741823", "1"),
+        ("1073741823", "0"),
+        ("-1073741823", "0"),
+    ][rng.below(5)];
+    match rng.below(5) {
+        0 => s.push_str(&format!("\\count1={half} \\advance\\count1 by \\count1 \\advance\\count1 by {nudge} ")),
+        1 => s.push_str(&format!("\\dimen1={half}sp \\advance\\dimen1 by \\dimen1 \\advance\\dimen1 by {nudge}sp ")),
+        2 => s.push_str(&format!("\\skip1={half}sp \\advance\\skip1 by \\skip1 \\advance\\skip1 by {nudge}sp ")),
+        3 => s.push_str(&format!("\\skip1=0pt plus {half}sp \\advance\\skip1 by \\skip1 \\advance\\skip1 by 0pt plus {nudge}sp ")),
+        _ => s.push_str(&format!("\\skip1=0pt minus {half}sp \\advance\\skip1 by \\skip1 \\advance\\skip1 by 0pt minus {nudge}sp ")),
+    }
+    if rng.chance(1, 3) {
+        // a second register at an extreme, so that binary uses meet two extremes
+        s.push_str(["\\count2=\\count1 ", "\\dimen2=1073741823sp \\advance\\dimen2 by \\dimen2 ", "\\skip2=\\skip1 ", "\\count2=-2147483647 "][rng.below(4)]);
+    }
+    let regs = ["\\count1", "\\dimen1", "\\skip1", "\\count2", "\\dimen2", "\\skip2"];
+    let operands = ["-1", "0", "1", "2", "-2", "2147483647", "-2147483647", "\\count1", "-\\count1", "\\count2", "3", "65536", "-65536"];
+    for _ in 0..(1 + rng.below(4)) {
+        let r = regs[rng.below(regs.len())];
+        match rng.below(9) {
+            0 => s.push_str(&format!("\\divide{r} by {} ", operands[rng.below(operands.len())])),
+            1 => s.push_str(&format!("\\multiply{r} by {} ", operands[rng.below(operands.len())])),
+            2 => s.push_str(&format!("\\advance{r} by {r} ")),
+            3 => s.push_str(&format!("\\advance{r} by -{r} ")),
+            4 => s.push_str(&format!("\\the{r} ")),
+            5 => s.push_str(&format!("\\skip3={r} plus {r} minus -{r} ", r = if r.contains("count") { format!("{r} sp") } else { r.to_string() })),
+            6 => s.push_str(&format!("\\dimen3=-{r} \\dimen3=2{r} \\dimen3=.5{r} ", r = if r.contains("count") { format!("{r} sp") } else { r.to_string() })),
+            7 => s.push_str(&format!("\\count3={r} \\count3=-{r} ")),
+            _ => s.push_str(&format!("\\ifnum{r}<-{r} a\\fi \\ifodd{r} b\\fi \\ifcase{r} c\\or d\\else e\\fi ")),
+        }
+    }
+    s
+}
+
+/// Many recoverable errors in one line: 99, 100, 101 ... of them, in whatever interaction mode
+/// the job is in (error counters, logs that grow, limits).
+fn error_storm(rng: &mut Rng) -> String {
+    let n = [99usize, 100, 101, 128, 255, 256, 300][rng.below(7)];
+    let (setup, unit) = [
+        ("\\def\\xa x{}", "\\xa y"),
+        ("", "\\count-1=0 "),
+        ("", "a\\else "),
+        ("", "\\catcode 1=16 "),
+        ("", "\\count13=X"),
+        ("\\def\\xa x{}", "\\count-1=0 \\xa y"),
+        ("", "\\fi "),
+    ][rng.below(7)];
+    let mode = ["", "", "\\batchmode ", "\\scrollmode ", "\\nonstopmode "][rng.below(5)];
+    let mut s = format!("{mode}{setup}");
+    for _ in 0..n {
+        s.push_str(unit);
+    }
+    s
 }
 
 /// Damage a text at rest: truncate at any byte (kept valid UTF-8), flip one byte to another ASCII
@@ -306,11 +377,20 @@ impl Property for C09 {
                         ("fa.tex".into(), b"A{\\count1=3 \nB}\\iftrue C\n".to_vec()),
                         ("r0.tex".into(), b"x{\ny}\n\nz".to_vec()),
                     ],
-                    terminal: vec!["t1".into(), "{t2".into(), "t3}".into()],
+                    terminal: {
+                        let pool = ["t1", "{t2", "t3}", "", " ", "\n", "   \n", "\t", "x\n", "{", "}", "%", "é", "\\relax", "  y  "];
+                        (0..rng.below(6)).map(|_| pool[rng.below(pool.len())].to_string()).collect()
+                    },
                     ..Default::default()
                 },
             )
         };
+        // Blank, whitespace-only and newline-terminated terminal lines (also for C08-derived jobs).
+        if rng.chance(1, 3) {
+            let pool = ["", " ", "\n", "   \n", "\t", "x\n", "%"];
+            let at = rng.below(env.terminal.len() + 1);
+            env.terminal.insert(at, pool[rng.below(pool.len())].to_string());
+        }
         // Keep jobs short: many short diverse runs beat few long ones.
         if lines.len() > 25 {
             lines.truncate(25);
